@@ -324,12 +324,12 @@ func helperCallsClean(p *pkg, typ string, w *writes, where string) bool {
 
 type chainFacts struct {
 	CloneClips, WithAttrsFresh, WithGroupFresh, GroupReturnsReceiver bool
-	Notes                                                             []string
+	Notes                                                            []string
 }
 
 type concFacts struct {
 	SingleWrite, WriteUnderLock, CloneSharesMu, BufFromPool, FreeDeferred, HandleReadonly bool
-	Notes                                                                                   []string
+	Notes                                                                                 []string
 }
 
 func cloneLiteral(p *pkg, typ string) (*method, map[string]ast.Expr) {
@@ -565,8 +565,9 @@ func concOf(p *pkg, typ string) concFacts {
 
 type globalFacts struct {
 	ResetBeforePut, RefusesOversized, PoolNewEmpty, GateFirst bool
-	MaxBufferSize                                              string
-	Notes                                                      []string
+	LevelStored, EnabledIsGe                                  bool
+	MaxBufferSize                                             string
+	Notes                                                     []string
 }
 
 func globalsOf(p *pkg) globalFacts {
@@ -650,6 +651,64 @@ func globalsOf(p *pkg) globalFacts {
 	if nb := p.funcs["newBuffer"]; nb == nil || len(nb.Body.List) != 1 || !strings.HasPrefix(show(nb.Body.List[0].(*ast.ReturnStmt).Results[0]), "bufferPool.Get()") {
 		unrecognised("newBuffer is not `return bufferPool.Get().(*[]byte)`")
 	}
+	// NewOptions stores the level argument unchanged; Options.Enabled is `l >= opts.level`
+	if no := p.funcs["NewOptions"]; no == nil || no.Type.Params == nil || len(no.Type.Params.List) == 0 || len(no.Type.Params.List[0].Names) == 0 {
+		unrecognised("NewOptions(level, …) not found")
+	} else {
+		lvl := no.Type.Params.List[0].Names[0].Name
+		var lit *ast.CompositeLit
+		if len(no.Body.List) == 1 {
+			if r, ok := no.Body.List[0].(*ast.ReturnStmt); ok && len(r.Results) == 1 {
+				e := r.Results[0]
+				if u, ok := e.(*ast.UnaryExpr); ok && u.Op == token.AND {
+					e = u.X
+				}
+				lit, _ = e.(*ast.CompositeLit)
+			}
+		}
+		if lit == nil || show(lit.Type) != "Options" || len(lit.Elts) == 0 {
+			unrecognised("NewOptions is not a single `return &Options{…}`")
+		} else {
+			var stored ast.Expr
+			if kv, ok := lit.Elts[0].(*ast.KeyValueExpr); ok {
+				for _, el := range lit.Elts {
+					if kv2, ok := el.(*ast.KeyValueExpr); ok && show(kv2.Key) == "level" {
+						stored = kv2.Value
+					}
+				}
+				_ = kv
+			} else {
+				stored = lit.Elts[0] // positional: level is the first field of Options
+			}
+			if stored == nil {
+				unrecognised("NewOptions does not set Options.level")
+			} else if show(stored) == lvl || show(stored) == "("+lvl+")" {
+				g.LevelStored = true
+			} else {
+				g.Notes = append(g.Notes, "NewOptions stores "+show(stored)+" instead of its level argument")
+			}
+		}
+	}
+	if en := p.methods["Options"]["Enabled"]; en == nil || en.decl.Type.Params == nil || len(en.decl.Type.Params.List) != 1 || len(en.decl.Type.Params.List[0].Names) != 1 {
+		unrecognised("Options.Enabled(l) not found")
+	} else {
+		l := en.decl.Type.Params.List[0].Names[0].Name
+		ok := false
+		if len(en.decl.Body.List) == 1 {
+			if r, isRet := en.decl.Body.List[0].(*ast.ReturnStmt); isRet && len(r.Results) == 1 {
+				c := show(r.Results[0])
+				if c == l+">="+en.recv+".level" || c == en.recv+".level<="+l || c == "!("+l+"<"+en.recv+".level)" {
+					g.EnabledIsGe = true
+				} else {
+					g.Notes = append(g.Notes, "Options.Enabled is "+c)
+				}
+				ok = true
+			}
+		}
+		if !ok {
+			unrecognised("Options.Enabled is not a single return of a comparison")
+		}
+	}
 	// level gate
 	g.GateFirst = true
 	for _, fn := range []string{"log", "logf", "logAttrs"} {
@@ -732,9 +791,9 @@ func main() {
 		out.WriteString("From Glb Require Import Model.LoggerConc.\n")
 		for _, t := range types {
 			f := concOf(p, t.typ)
-			fmt.Fprintf(&out, "Definition %s_conc_facts : conc_facts := mkConcFacts %s %s %s %s %s %s %s %s %s %s.\n", t.name,
+			fmt.Fprintf(&out, "Definition %s_conc_facts : conc_facts := mkConcFacts %s %s %s %s %s %s %s %s %s %s %s %s.\n", t.name,
 				cb(f.SingleWrite), cb(f.WriteUnderLock), cb(f.CloneSharesMu), cb(f.BufFromPool), cb(f.FreeDeferred), cb(f.HandleReadonly),
-				cb(g.ResetBeforePut), cb(g.RefusesOversized), cb(g.PoolNewEmpty), cb(g.GateFirst))
+				cb(g.ResetBeforePut), cb(g.RefusesOversized), cb(g.PoolNewEmpty), cb(g.GateFirst), cb(g.LevelStored), cb(g.EnabledIsGe))
 			for _, n := range f.Notes {
 				notes = append(notes, t.typ+": "+n)
 			}
